@@ -1,8 +1,578 @@
-//! C08 — monitor not built yet.
+//! C08 — the compiled context is a pure function of thread truth up to the cut point.
+//!
+//! Reference-model monitor: for generated thread histories (real routed runs with output, dense
+//! side effects, cursors, manual and automatic checkpoints at chosen boundaries) the run-time
+//! compile entry point is called for many anchors and its decision + bundle are compared with a
+//! small model computed from the raw log only (cut point, eligible checkpoints, halving
+//! hierarchy, ≤16 recent messages after the latest summary, reply texts). Metamorphic checks:
+//! identical under every cache state, identical after frames are appended beyond the cut,
+//! identical with the session snapshot removed, and identical while appenders race with it.
+
+use crate::c04::{diff_summary, run_query, QueryDef};
+use crate::fixture::{runtime, wait_for, App, Store};
+use crate::gen_hist::{exec, Known, OpKind};
+use crate::prng::Rng;
 use crate::report::{Cfg, Report};
+use crate::sched::sched;
+use crate::truth;
+use serde_json::{json, Value};
+use std::collections::HashMap;
+use std::sync::atomic::{AtomicBool, Ordering};
+use std::sync::Arc;
+use std::time::Duration;
+
+const LIMIT: usize = 16;
+const MAX_REFS: usize = 3;
+
+/// The model: expected compile outcome for `anchor` from the raw frames of the whole log.
+fn model(frames: &[truth::Frame], thread: &str, anchor: &str) -> Option<Value> {
+    let tf = truth::stream(frames, "continuity", thread);
+    let head = tf.last()?.seq();
+    let msgs: Vec<&&truth::Frame> = tf.iter().filter(|f| f.ty() == "continuity_message_appended").collect();
+    let ai = msgs.iter().position(|m| m.id() == anchor)?;
+    let aseq = msgs[ai].seq();
+    let from_seq = match msgs.get(ai + 1) {
+        Some(next) => next.seq().saturating_sub(1),
+        None => head,
+    }
+    .max(aseq);
+    // eligible cumulative checkpoints with to_seq <= from_seq; latest frame per to_seq wins
+    let mut by_to: HashMap<u64, (u64, Value)> = HashMap::new();
+    for f in tf.iter().filter(|f| f.ty() == "continuity_compaction_checkpoint_created") {
+        let to = f.u("to_seq").unwrap_or(u64::MAX);
+        if to > from_seq || f.s("summary_kind") != "cumulative_v1" {
+            continue;
+        }
+        let rec = json!({
+            "checkpoint_id": f.s("checkpoint_id"), "summary_kind": f.s("summary_kind"),
+            "summary_artifact_id": f.s("summary_artifact_id"), "to_seq": to,
+        });
+        match by_to.get(&to) {
+            Some((s, _)) if *s >= f.seq() => {}
+            _ => {
+                by_to.insert(to, (f.seq(), rec));
+            }
+        }
+    }
+    let mut unique: Vec<(u64, Value)> = by_to.into_iter().map(|(to, (_, v))| (to, v)).collect();
+    unique.sort_by_key(|x| x.0);
+    let mut selected: Vec<(u64, Value)> = Vec::new();
+    if let Some(latest) = unique.last().cloned() {
+        let mut cur = latest.0;
+        selected.push(latest);
+        while selected.len() < MAX_REFS {
+            if cur <= 1 {
+                break;
+            }
+            let threshold = cur / 2;
+            if threshold == 0 {
+                break;
+            }
+            // greatest to_seq <= threshold
+            let cand = unique.iter().filter(|(to, _)| *to <= threshold).last().cloned();
+            match cand {
+                Some(c) if c.0 < cur => {
+                    cur = c.0;
+                    selected.push(c);
+                }
+                _ => break,
+            }
+        }
+    }
+    selected.sort_by_key(|x| x.0);
+    let strategy = match selected.len() {
+        0 => "recent_messages_v1",
+        1 => "summaries_recent_messages_v1",
+        _ => "hierarchical_summaries_recent_messages_v1",
+    };
+    let after = selected.last().map(|x| x.0);
+    // last run_ended (seq <= from_seq) per message
+    let mut ended: HashMap<&str, &str> = HashMap::new();
+    for f in tf.iter().filter(|f| f.ty() == "continuity_run_ended" && f.seq() <= from_seq) {
+        ended.insert(f.s("message_id"), f.s("run_session_id"));
+    }
+    let mut window: Vec<&&&truth::Frame> = msgs
+        .iter()
+        .filter(|m| m.seq() <= from_seq && after.map(|a| m.seq() > a).unwrap_or(true))
+        .collect();
+    if window.len() > LIMIT {
+        window = window.split_off(window.len() - LIMIT);
+    }
+    let mut items: Vec<Value> = Vec::new();
+    for (to, v) in &selected {
+        items.push(json!({"type": "summary_ref", "artifact_id": v["summary_artifact_id"], "note": format!("compaction checkpoint to_seq={to}")}));
+    }
+    for m in window {
+        items.push(json!({
+            "type": "message", "role": "user", "content": m.s("content"), "actor_id": m.s("actor_id"),
+            "origin": m.s("origin"), "thread_seq": m.seq(), "thread_event_id": m.id(),
+        }));
+        if let Some(sess) = ended.get(m.id()) {
+            let text: String = truth::stream(frames, "session", sess)
+                .iter()
+                .filter(|f| f.ty() == "output_text_delta")
+                .map(|f| f.s("delta").to_string())
+                .collect();
+            if !text.is_empty() {
+                items.push(json!({"type": "message", "role": "assistant", "content": text, "actor_id": null,
+                    "origin": null, "thread_seq": null, "thread_event_id": null}));
+            }
+        }
+    }
+    Some(json!({
+        "from_seq": from_seq,
+        "from_message_id": anchor,
+        "compiler_strategy": strategy,
+        "compaction_checkpoints": selected.iter().map(|x| x.1.clone()).collect::<Vec<_>>(),
+        "compaction_checkpoint": selected.last().map(|x| x.1.clone()),
+        "items": items,
+    }))
+}
+
+/// The comparable projection of what the real compile returned.
+fn project(ans: &Value) -> Value {
+    let ok = &ans["ok"];
+    if ok.is_null() {
+        return json!({"error": ans["err"]});
+    }
+    json!({
+        "from_seq": ok["from_seq"],
+        "from_message_id": ok["from_message_id"],
+        "compiler_strategy": ok["compiler_strategy"],
+        "compaction_checkpoints": ok["compaction_checkpoints"],
+        "compaction_checkpoint": ok["compaction_checkpoint"],
+        "items": ok["bundle"]["items"],
+        "bundle_source": ok["bundle"]["source"],
+        "bundle_strategy": ok["bundle"]["compiler"]["strategy"],
+    })
+}
+
+fn expect_from_model(m: &Value, thread: &str) -> Value {
+    let mut e = m.clone();
+    e["bundle_source"] = json!({"thread_id": thread, "from_seq": m["from_seq"], "from_message_id": m["from_message_id"]});
+    e["bundle_strategy"] = m["compiler_strategy"].clone();
+    e
+}
+
+#[derive(Clone, Debug)]
+struct Layout {
+    name: &'static str,
+    /// per message i: (dense side effects after it, routed real run?, fake run frames?)
+    msgs: usize,
+    dense: usize,
+    real_runs_every: usize,
+    /// manual checkpoints: message ordinals (1-based), may repeat (equal to_seq)
+    ckpts: Vec<usize>,
+    auto_stride: Option<u64>,
+}
+
+fn layouts(rng: &mut Rng, idx: u64) -> Layout {
+    let fixed: Vec<Layout> = vec![
+        Layout { name: "exactly_15", msgs: 15, dense: 0, real_runs_every: 4, ckpts: vec![], auto_stride: None },
+        Layout { name: "exactly_16", msgs: 16, dense: 1, real_runs_every: 5, ckpts: vec![], auto_stride: None },
+        Layout { name: "exactly_17", msgs: 17, dense: 0, real_runs_every: 6, ckpts: vec![], auto_stride: None },
+        Layout { name: "ckpt_then_16", msgs: 20, dense: 0, real_runs_every: 7, ckpts: vec![4], auto_stride: None },
+        Layout { name: "ckpt_then_17", msgs: 21, dense: 2, real_runs_every: 0, ckpts: vec![4], auto_stride: None },
+        Layout { name: "ckpt_at_last", msgs: 9, dense: 0, real_runs_every: 3, ckpts: vec![9], auto_stride: None },
+        Layout { name: "equal_to_seq_twice", msgs: 10, dense: 0, real_runs_every: 0, ckpts: vec![5, 5, 5], auto_stride: None },
+        Layout { name: "halving_4", msgs: 40, dense: 0, real_runs_every: 0, ckpts: vec![2, 5, 10, 20, 38], auto_stride: None },
+        Layout { name: "halving_dense", msgs: 24, dense: 3, real_runs_every: 9, ckpts: vec![1, 3, 6, 12, 23], auto_stride: None },
+        Layout { name: "auto_every_3", msgs: 19, dense: 1, real_runs_every: 5, ckpts: vec![], auto_stride: Some(3) },
+        Layout { name: "dense_side_effects", msgs: 8, dense: 60, real_runs_every: 3, ckpts: vec![3], auto_stride: None },
+        Layout { name: "single_message", msgs: 1, dense: 2, real_runs_every: 1, ckpts: vec![1], auto_stride: None },
+    ];
+    if (idx as usize) < fixed.len() {
+        return fixed[idx as usize].clone();
+    }
+    let msgs = 1 + rng.usize(45);
+    let nck = rng.usize(6);
+    Layout {
+        name: "random",
+        msgs,
+        dense: [0, 0, 1, 3, 12][rng.usize(5)],
+        real_runs_every: [0, 2, 3, 5][rng.usize(4)],
+        ckpts: (0..nck).map(|_| 1 + rng.usize(msgs)).collect(),
+        auto_stride: if rng.chance(1, 4) { Some(rng.range(1, 6)) } else { None },
+    }
+}
 
 pub fn run(cfg: &Cfg) -> i32 {
-    let mut r = Report::new("C08", "exploration", "not built");
-    r.fatal_inconclusive("monitor not built yet");
+    let mut r = Report::new(
+        "C08",
+        "exploration",
+        "enumerated boundary layouts (15/16/17 messages, checkpoint at/after/beyond the cut, equal to_seq, 1-4 halving levels, \
+         dense side effects, real routed runs with output) plus seeded random layouts; every sampled anchor is compiled by the real \
+         entry point and compared with a raw-log model, then re-compiled under other cache states, after appends beyond the cut, \
+         without the session snapshot, and while appenders race; distinct = distinct (layout shape, anchor position class, strategy)",
+    );
+    r.assume("the model follows context_bundle.md / ADR-0010 / ADR-0018 as implemented in context_compiler.rs and read from the docs");
+    let s = sched();
+    let rt = runtime(6);
+    let mut idx = 0u64;
+    while !r.over(cfg) && idx < cfg.tier.pick(400, 1_000_000) {
+        let i = idx;
+        idx += 1;
+        if !cfg.mine(i) {
+            continue;
+        }
+        let mut rng = cfg.case_rng(i);
+        one_case(cfg, &mut r, &rt, &mut rng, i);
+    }
+    s.reset();
     r.finish(cfg)
+}
+
+fn compile_q(anchor: &str) -> QueryDef {
+    QueryDef { name: "compile".into(), class: "compile", args: json!({"message_id": anchor}) }
+}
+
+fn one_case(cfg: &Cfg, r: &mut Report, rt: &tokio::runtime::Runtime, rng: &mut Rng, idx: u64) {
+    let lay = layouts(rng, idx);
+    let store = Store::new("c08");
+    let app = match App::open(&store, None) {
+        Ok(a) => a,
+        Err(e) => {
+            r.inconclusive(&format!("open: {e}"));
+            return;
+        }
+    };
+    let st = app.store();
+    let thread = st.ensure_default().expect("default");
+    let conts = vec![thread.clone()];
+    let mut known = Known::default();
+    let mut msg_ids: Vec<String> = Vec::new();
+    let tag = format!("c{idx}");
+    for m in 1..=lay.msgs {
+        let real = lay.real_runs_every > 0 && m % lay.real_runs_every == 0;
+        if real {
+            // routed prompt: real session with output text + snapshot + run frames
+            let app2 = app.clone();
+            let t2 = thread.clone();
+            let content = format!("prompt {tag} #{m} {}", rng.unicode(6));
+            let log_path = store.log_path();
+            let got = rt.block_on(async move {
+                let (stc, v) = app2.json("POST", &format!("/threads/{t2}/messages"), Some(&json!({"content": content}))).await;
+                if stc != 202 {
+                    return None;
+                }
+                let mid = v["message_id"].as_str()?.to_string();
+                let sid = v["session_id"].as_str()?.to_string();
+                wait_for(Duration::from_secs(20), || {
+                    let t = String::from_utf8_lossy(&std::fs::read(&log_path).unwrap_or_default()).to_string();
+                    t.lines().rev().take(40).any(|l| l.contains("continuity_run_ended") && l.contains(&sid)).then_some(())
+                })
+                .await?;
+                Some(mid)
+            });
+            match got {
+                Some(mid) => {
+                    known.msgs.push((thread.clone(), mid.clone()));
+                    msg_ids.push(mid);
+                }
+                None => {
+                    r.inconclusive(&format!("case {idx}: routed run did not finish"));
+                    return;
+                }
+            }
+        } else {
+            let res = exec(&app, &store.data, &conts, &mut known, OpKind::Msg, rng, &tag);
+            if let Some(id) = res.acked.first() {
+                msg_ids.push(id.clone());
+            }
+            if rng.chance(1, 3) {
+                // a fake (frame-only) run for this message, sometimes two (last run_ended wins)
+                let mid = msg_ids.last().cloned().unwrap_or_default();
+                for k in 0..(1 + rng.usize(2)) {
+                    let sid = format!("fake-{tag}-{m}-{k}");
+                    let _ = st.append_run_spawned(&thread, &mid, &sid, "a".into(), "rv".into());
+                    let _ = st.append_run_ended(&thread, &mid, &sid, "completed".into(), "a".into(), "rv".into());
+                }
+            }
+        }
+        for _ in 0..lay.dense {
+            let k = [OpKind::SideEffects, OpKind::SideEffects, OpKind::Cursor][rng.usize(3)];
+            let _ = exec(&app, &store.data, &conts, &mut known, k, rng, &tag);
+        }
+        for (ci, c) in lay.ckpts.iter().enumerate() {
+            // place the checkpoint for message `c` some time after it was appended
+            if *c + (ci % 3) == m || (*c > lay.msgs.saturating_sub(2) && m == lay.msgs && *c <= m && *c + (ci % 3) > m) {
+                if let Some(mid) = msg_ids.get(*c - 1) {
+                    let _ = st.compaction_checkpoint_cumulative_v1(
+                        &thread,
+                        ripd::CompactionCheckpointCumulativeV1Request {
+                            summary_markdown: Some(format!("summary up to message {c} ({tag}/{ci})")),
+                            summary_artifact_id: None,
+                            to_message_id: Some(mid.clone()),
+                            to_seq: None,
+                            stride_messages: None,
+                            actor_id: "a".into(),
+                            origin: "rv".into(),
+                        },
+                    );
+                }
+            }
+        }
+        if let Some(stride) = lay.auto_stride {
+            if m as u64 % stride == 0 {
+                let _ = st.compaction_auto_v1(
+                    &thread,
+                    ripd::CompactionAutoV1Request { stride_messages: Some(stride), max_new_checkpoints: Some(2), dry_run: Some(false), actor_id: "a".into(), origin: "rv".into() },
+                );
+            }
+        }
+    }
+    // trailing non-message frames after the last message (cut = head, not the last message)
+    for _ in 0..rng.usize(4) {
+        let _ = exec(&app, &store.data, &conts, &mut known, OpKind::SideEffects, rng, &tag);
+    }
+    drop(app);
+
+    let frames = match truth::parse_log(&store.log_bytes()) {
+        Ok(f) => f,
+        Err(e) => {
+            r.inconclusive(&format!("case {idx}: log unreadable: {}", e.detail));
+            return;
+        }
+    };
+    let n = msg_ids.len();
+    if n == 0 {
+        return;
+    }
+    // anchors: boundary ones + random sample
+    let mut picks: Vec<usize> = vec![0, n - 1, n.saturating_sub(2), n / 2];
+    for off in [15usize, 16, 17] {
+        if n > off {
+            picks.push(n - 1 - off);
+        }
+    }
+    for c in &lay.ckpts {
+        picks.push(c - 1);
+        if *c < n {
+            picks.push(*c);
+        }
+    }
+    for _ in 0..cfg.tier.pick(4, 10) {
+        picks.push(rng.usize(n));
+    }
+    picks.sort();
+    picks.dedup();
+
+    for &ai in &picks {
+        let anchor = &msg_ids[ai];
+        let Some(m) = model(&frames, &thread, anchor) else {
+            r.inconclusive("anchor not in truth");
+            continue;
+        };
+        let expect = expect_from_model(&m, &thread);
+        let q = compile_q(anchor);
+        let pos_class = if ai + 1 == n { "tail" } else if n - 1 - ai >= 17 { "far" } else { "mid" };
+        let wit = |variant: &str, got: &Value| {
+            json!({"case": idx, "seed": cfg.seed, "layout": format!("{lay:?}"), "anchor_index": ai, "messages": n,
+                   "variant": variant, "diff": diff_summary(got, &expect)})
+        };
+        // variants: caches as built / mr sidecars removed / every cache removed / snapshots removed
+        let variants: [(&str, &[&str], bool); 4] = [
+            ("caches_intact", &[], false),
+            ("mr_sidecar_removed", &[".mr.v1.jsonl", ".mr.seek.v1.jsonl", ".mr.messages.v1.bin", ".mr.msgord.v1.bin"], false),
+            ("all_caches_removed", &["*"], false),
+            ("snapshots_removed", &[], true),
+        ];
+        let mut first: Option<Value> = None;
+        for (vname, remove, drop_snap) in variants {
+            let f = store.fork_sharing_ws("c08v");
+            if remove.contains(&"*") {
+                let _ = std::fs::remove_dir_all(f.streams_dir());
+            } else {
+                for suf in remove {
+                    let _ = std::fs::remove_file(f.streams_dir().join(format!("{thread}{suf}")));
+                }
+            }
+            if drop_snap {
+                let _ = std::fs::remove_dir_all(f.data.join("snapshots"));
+            }
+            let got = project(&run_query(&f, &thread, &q));
+            r.eval();
+            r.count("compiles_compared_with_model", 1);
+            if got != expect {
+                r.violation(
+                    &format!("C08/compile_differs_from_truth_model/{}/{vname}/{pos_class}", m["compiler_strategy"].as_str().unwrap_or("?")),
+                    &format!("compiled context for anchor {ai}/{n} ({vname}) differs from the raw-log model: {}", diff_summary(&got, &expect)),
+                    wit(vname, &got),
+                );
+            }
+            match &first {
+                None => first = Some(got),
+                Some(f0) => {
+                    if *f0 != got {
+                        r.violation(
+                            &format!("C08/compile_depends_on_cache_state/{vname}/{pos_class}"),
+                            &format!("compile result differs between cache states: {}", diff_summary(&got, f0)),
+                            wit(vname, &got),
+                        );
+                    }
+                }
+            }
+        }
+        r.distinct_str(&format!("{}|{}|{}|ck{}|dense{}", lay.name, pos_class, m["compiler_strategy"].as_str().unwrap_or("?"),
+            m["compaction_checkpoints"].as_array().map(|a| a.len()).unwrap_or(0), lay.dense.min(3)));
+        r.count(&format!("strategy:{}", m["compiler_strategy"].as_str().unwrap_or("?")), 1);
+        let items = m["items"].as_array().map(|a| a.len()).unwrap_or(0);
+        r.count("bundle_items_checked", items as u64);
+        if m["items"].as_array().map(|a| a.iter().any(|i| i["role"] == "assistant")).unwrap_or(false) {
+            r.count("bundles_with_reply_text", 1);
+        }
+    }
+
+    // (b) appends beyond the cut do not change the result; (d) nor do racing appenders
+    let fixed: Vec<usize> = picks.iter().copied().filter(|ai| ai + 1 < n).collect();
+    if !fixed.is_empty() {
+        let ai = fixed[rng.usize(fixed.len())];
+        let anchor = msg_ids[ai].clone();
+        let expect = model(&frames, &thread, &anchor).map(|m| expect_from_model(&m, &thread)).unwrap_or(Value::Null);
+        let work = store.fork("c08w");
+        let app = App::open(&work, None).expect("open work");
+        let q = compile_q(&anchor);
+        let before = project(&run_query_live(&app, &work, &thread, &q));
+        // directed: a checkpoint for the anchor itself (to_seq <= cut) appended after the cut
+        if idx % 4 == 0 {
+            let _ = app.store().compaction_checkpoint_cumulative_v1(
+                &thread,
+                ripd::CompactionCheckpointCumulativeV1Request {
+                    summary_markdown: Some("late summary".into()),
+                    summary_artifact_id: None,
+                    to_message_id: Some(anchor.clone()),
+                    to_seq: None,
+                    stride_messages: None,
+                    actor_id: "a".into(),
+                    origin: "rv".into(),
+                },
+            );
+        }
+        // sequential appends
+        let mut k2 = Known::default();
+        k2.msgs = known.msgs.clone();
+        for _ in 0..(5 + rng.usize(30)) {
+            let kind = [OpKind::Msg, OpKind::SideEffects, OpKind::Cursor, OpKind::ManualCkpt, OpKind::Auto, OpKind::RunSpawned, OpKind::RunEnded][rng.usize(7)];
+            let _ = exec(&app, &work.data, &conts, &mut k2, kind, rng, "after");
+        }
+        let after = project(&run_query_live(&app, &work, &thread, &q));
+        r.eval();
+        r.count("recompiles_after_appends_beyond_cut", 1);
+        // checkpoints appended later with to_seq <= cut legitimately change the selection: the statement
+        // says "frames appended after the cut point" do not matter, a later checkpoint *for an earlier seq* is
+        // still a frame after the cut, so compare against the ORIGINAL model
+        if before != expect || after != expect {
+            let mut which = if before != expect { "before_appends".to_string() } else { "after_appends".to_string() };
+            if before == expect && later_checkpoint_explains(&work, &thread, &expect, &after) {
+                which = "later_checkpoint_frame_for_earlier_to_seq".to_string();
+            }
+            r.violation(
+                &format!("C08/compile_changed_by_frames_after_cut/{which}"),
+                &format!(
+                    "anchor {ai}/{n} (cut fixed by a following message): {}",
+                    diff_summary(if before != expect { &before } else { &after }, &expect)
+                ),
+                json!({"case": idx, "seed": cfg.seed, "layout": format!("{lay:?}"), "anchor_index": ai, "which": which}),
+            );
+        }
+        // racing appenders
+        if rng.chance(1, 2) {
+            let stop = Arc::new(AtomicBool::new(false));
+            let mut hs = Vec::new();
+            for t in 0..3 {
+                let app = app.clone();
+                let data = work.data.clone();
+                let conts = conts.clone();
+                let stop = stop.clone();
+                let mut trng = Rng::derive(rng.next_u64(), t);
+                let mut kn = Known::default();
+                kn.msgs = known.msgs.clone();
+                hs.push(std::thread::spawn(move || {
+                    let mut n = 0;
+                    while !stop.load(Ordering::Relaxed) && n < 400 {
+                        let kind = [OpKind::Msg, OpKind::SideEffects, OpKind::Cursor, OpKind::RunSpawned, OpKind::RunEnded][trng.usize(5)];
+                        let _ = exec(&app, &data, &conts, &mut kn, kind, &mut trng, "race");
+                        n += 1;
+                    }
+                    n
+                }));
+            }
+            let s = sched();
+            s.set_noise(rng.next_u64(), &[("cache.scan", 800), ("cont.cache.enter", 200)]);
+            let mut raced = Vec::new();
+            for _ in 0..4 {
+                raced.push(project(&run_query_live(&app, &work, &thread, &q)));
+            }
+            stop.store(true, Ordering::Relaxed);
+            let appended: usize = hs.into_iter().map(|h| h.join().unwrap_or(0)).sum();
+            s.reset();
+            r.count("racing_compiles", raced.len() as u64);
+            r.count("frames_appended_while_compiling", appended as u64);
+            for got in raced {
+                r.eval();
+                if got != expect {
+                    let sig = if later_checkpoint_explains(&work, &thread, &expect, &got) {
+                        "C08/compile_changed_by_frames_after_cut/later_checkpoint_frame_for_earlier_to_seq"
+                    } else {
+                        "C08/compile_changed_by_racing_appends"
+                    };
+                    r.violation(
+                        sig,
+                        &format!("anchor {ai}/{n} compiled while 3 appenders were running: {}", diff_summary(&got, &expect)),
+                        json!({"case": idx, "seed": cfg.seed, "layout": format!("{lay:?}"), "anchor_index": ai}),
+                    );
+                }
+            }
+        }
+    }
+    if r.samples.len() < r.max_samples {
+        r.sample(json!({"case": idx, "layout": format!("{lay:?}"), "messages": n, "anchors": picks,
+            "frames": frames.len()}));
+    }
+}
+
+/// Is the difference between `expect` (model on the truth as it was) and `got` exactly what the
+/// model yields on the truth as it is NOW, and does the now-truth contain a checkpoint frame that was
+/// appended after the cut for a to_seq at or before the cut? Then the cause is the known one: the
+/// compiler selects checkpoints by `to_seq <= cut` regardless of where the checkpoint frame itself sits.
+fn later_checkpoint_explains(work: &Store, thread: &str, expect: &Value, got: &Value) -> bool {
+    let Ok(frames) = truth::parse_log(&work.log_bytes()) else {
+        return false;
+    };
+    let anchor = expect["from_message_id"].as_str().unwrap_or("");
+    let cut = expect["from_seq"].as_u64().unwrap_or(0);
+    let Some(now) = model(&frames, thread, anchor) else {
+        return false;
+    };
+    if expect_from_model(&now, thread) != *got {
+        return false;
+    }
+    truth::stream(&frames, "continuity", thread).iter().any(|f| {
+        f.ty() == "continuity_compaction_checkpoint_created" && f.seq() > cut && f.u("to_seq").unwrap_or(u64::MAX) <= cut
+    })
+}
+
+/// compile on a live app (no fork), same normalisation as c04::run_query
+fn run_query_live(app: &App, store: &Store, thread: &str, q: &QueryDef) -> Value {
+    let link = ripd::ContinuityRunLink {
+        continuity_id: thread.to_string(),
+        message_id: q.args["message_id"].as_str().unwrap_or("").to_string(),
+        actor_id: "q".into(),
+        origin: "q".into(),
+    };
+    match ripd::verif_export::compile_context_for_run(&app.engine, &store.data, &link, "q-session", false) {
+        Ok(mut v) => {
+            let art = v["bundle_artifact_id"].as_str().unwrap_or("").to_string();
+            let bundle: Value = std::fs::read(store.ws.join(".rip/artifacts/blobs").join(&art))
+                .ok()
+                .and_then(|b| serde_json::from_slice(&b).ok())
+                .unwrap_or(json!("bundle unreadable"));
+            if let Some(o) = v.as_object_mut() {
+                o.remove("bundle_artifact_id");
+                o.insert("bundle".into(), bundle);
+            }
+            json!({"ok": v})
+        }
+        Err(e) => json!({"err": e.chars().take(60).collect::<String>()}),
+    }
 }
